@@ -78,10 +78,15 @@ def merge_shard_infos(updates: list[ShardListInfo], dataset_root: Path,
     assert len(current_level) <= 1
 
     # Move children of root_shard_list into deeper_updates to let recursion
-    # merge everything.
+    # merge everything. A child which is being updated (writing continued in
+    # its directory) is superseded by its update.
+    updated_paths: set[Path] = {
+        update.shard_list_info_file.file_path for update in deeper_updates
+    }
     for child in root_shard_list.children_shard_lists:
         root_shard_list.number_of_examples -= child.number_of_examples
-        deeper_updates.append(child)
+        if child.shard_list_info_file.file_path not in updated_paths:
+            deeper_updates.append(child)
     root_shard_list.children_shard_lists = []
 
     # Recursively update children with one longer common prefix.
